@@ -34,7 +34,7 @@ ObsNext(st, e) ==
 
 Clauses(st, e) ==
   << <<"C04_NoDeadlock",                  \* nobody waits for a lock or a thread for ever
-        e.ev = "BlockedAtEnd" => e.s \notin {"acquire", "join"}>>,
+        e.ev = "BlockedAtEnd" => e.s \notin {"acquire", "join", "spin"}>>,
      <<"C04_NoClientBlockedForever",      \* nor does an API call of a client block on a condition for ever
         \* (result() on a future that a shutdown left unfinished is not a deadlock: C03 / C11 speak about that)
         (e.ev = "BlockedAtEnd" /\ e.r \in Clients /\ ~st.down) => e.s \notin {"cvwait", "evwait"}>>,
